@@ -1,0 +1,50 @@
+//go:build verif
+
+package collect
+
+import "sync"
+
+// Verification hooks (build tag verif only). Add-only accessors for the
+// property-based harness in /verif; no behaviour change.
+
+// VerifEject sends every worker the same sendEarly message checkAlloc sends
+// when the heap is over budget, and waits for all workers to finish.
+func (i *InMemCollector) VerifEject(perWorkerBytes int) {
+	var wg sync.WaitGroup
+	wg.Add(len(i.workers))
+	for _, worker := range i.workers {
+		worker.sendEarly <- sendEarly{wg: &wg, bytesToSend: perWorkerBytes}
+	}
+	wg.Wait()
+}
+
+// VerifWorkerFor reports which worker owns a trace ID.
+func (i *InMemCollector) VerifWorkerFor(traceID string) int {
+	return i.getWorkerIDForTrace(traceID)
+}
+
+// VerifBufferedTraceIDs returns, per worker, the IDs of the traces currently
+// buffered, read while the worker is paused.
+func (i *InMemCollector) VerifBufferedTraceIDs() [][]string {
+	out := make([][]string, len(i.workers))
+	for idx, w := range i.workers {
+		ch := make(chan struct{})
+		w.pause <- ch
+		for _, t := range w.cache.GetAll() {
+			out[idx] = append(out[idx], t.TraceID)
+		}
+		close(ch)
+	}
+	return out
+}
+
+// VerifCheckTrace consults the owning worker's decision cache without
+// modifying counts.
+func (i *InMemCollector) VerifCheckTrace(traceID string) (found bool, kept bool, rate uint, reason string) {
+	w := i.workers[i.getWorkerIDForTrace(traceID)]
+	rec, reason, found := w.sampleCache.CheckTrace(traceID)
+	if !found {
+		return false, false, 0, ""
+	}
+	return true, rec.Kept(), rec.Rate(), reason
+}
